@@ -463,6 +463,16 @@ impl World {
             }
         }
         violations.append(&mut found);
+        if matches!(op, Op::ProtectText { .. }) {
+            // whatever is wrong right after protect_text is wrong with the validation data it wrote
+            for v in violations.iter_mut() {
+                if v.owner != "C18" {
+                    v.also = Some(v.owner);
+                    v.owner = "C18";
+                    v.key = format!("protect_text:{}", v.key);
+                }
+            }
+        }
         if let Some(text) = via_query {
             // whatever is wrong after a request that went through query_mut is a difference between the query and the direct call
             for v in violations.iter_mut() {
